@@ -20,6 +20,19 @@ SRC_TIE = {
            "as ghost events, the table functions being the translated ones of C04 at the table's offset inside the detector object) and proved to compute "
            "the model's pre_action / post_action / final_report on the heap representation: the failure event is emitted iff the model's verdict fires, "
            "every checking-period record is re-stamped (d_mark), flags reset, nothing else stored. Utest::run's phase control flow stays model + correspondence.",
+    "C12": " SOURCE TIE BY PROOF: CommandLineArguments::parse (the loop over argv and its chain of `argument == \"..\"` / `argument.startsWith(\"..\")` tests) is "
+           "regenerated from the source on every run (tools/cxx2heap.py; an argument is an opaque text, the value-taking options' handlers are oracle calls "
+           "that may advance the index) and proved to dispatch exactly as first_match over the dispatch table -- which a different, regex-based plugin "
+           "extracts from the same source: two independent extractions proved equal on every text --, to store the flag member of an exact rule, to call "
+           "the handler of a prefix rule once with the literal and flags of that rule, and as a whole to follow the model's parse_args (flags, handler "
+           "sequence, acceptance). The handlers themselves (values, filters) stay model + correspondence.",
+    "C01": " SOURCE TIE BY PROOF: TestResult's counters / addFailure / getters / isFailure, TestOutput::printTestsEnded (the summary line) and "
+           "CommandLineTestRunner::runAllTests (list modes, reverse once, the repeat loop, the value returned) are regenerated from the source on every "
+           "run (tools/cxx2heap.py; print(\"..\") / print(n) as ghost events carrying the text, the calls on registry and output as events, the TestResult of a "
+           "repetition as oracle streams) and proved: each count function is cadd of the model's unit, isFailure = is_failure, the printed summary parses "
+           "back to mk_summary (OK iff no failure and something ran or was ignored; the six figures in order), the runner emits exactly one reverse before "
+           "the first run, one fresh TestResult and one runAllTests per repetition, and returns exit_value of the accumulated counts -- zero iff every "
+           "repetition was clean, below 2^32 failures (the wrap of the (int) cast is exhibited). Utest::run's setjmp / exception control flow stays model + correspondence.",
     "C11": " SOURCE TIE BY PROOF: GccPlatformSpecificRunTestInASeperateProcess (fork failure, the child's verdict, the parent's wait loop with its retry "
            "bound and SIGCONT) and SetTestFailureByStatusCode are regenerated from UtestPlatform.cpp on every run (tools/cxx2gal.py; fork / "
            "waitpid / getFailureCount as ghost oracle streams) and proved to do what the model's parent_loop / set_failure_by_status say on every "
